@@ -529,6 +529,49 @@ def _norm_arg(fn, v, F=None):
     return _skel(fn, v)
 
 
+def r9_strains_pair(ctx, F, rule='C16-R9'):
+    """the same comparison for the (difficulty, strains) pair of entries: both hand the shared `DifficultyValues::calculate` (and whatever else both call) the same numbers"""
+    from common import MODES
+    n = 0
+    for mode in MODES:
+        A = F.fn('%s::difficulty::difficulty' % mode)
+        B = F.fn('%s::strains::strains' % mode)
+        if A is None or B is None:
+            ctx.violation(rule, 'anchor-missing:' + mode, 'difficulty / strains entry of %s not found' % mode)
+            continue
+        ctx.saw(A)
+        ctx.saw(B)
+        a, b = _numeric_args(F, A, mode), _numeric_args(F, B, mode)
+        for cp in sorted(set(a) & set(b)):
+            if len(a[cp]) != 1 or len(b[cp]) != 1:
+                continue
+            for (i, ty, x), (_, _, y) in zip(a[cp][0], b[cp][0]):
+                n += 1
+                key = '%s:%s:arg%d' % (mode, cp.split('::')[-2] + '::' + cp.split('::')[-1], i)
+                ctx.require(x == y, rule, key, 'difficulty() and strains() of %s hand %s the same expression as argument %d (%s)' % (mode, cp.split('::', 1)[-1], i, ty), B.where(),
+                            bad='%s: argument %d (%s) of %s is computed by different expressions in difficulty() (`%s`) and in strains() (`%s`): the strains no longer describe the '
+                                'calculation the stars come from' % (mode, i, ty, cp, _first_diff(x, y)[0], _first_diff(x, y)[1]))
+    ctx.ok(rule, 'pairs', '%d numeric argument(s) handed to shared callees by difficulty() and strains() compared' % n)
+
+
+def _numeric_args(F, fn, mode):
+    P = prov.prov_of(fn)
+    out = {}
+    for bi, t in fn.calls():
+        cp = t['func'].get('path') or ''
+        if not t['func'].get('local') or not cp.startswith(mode + '::') or cp.startswith(mode + '::convert'):
+            continue
+        g = F.fn(cp)
+        if g is None:
+            continue
+        ins = g.j.get('inputs') or []
+        args = P.call_args(bi)
+        row = [(i, (ins[i].get('s') or '?'), _norm_arg(fn, a, F)) for i, a in enumerate(args) if i < len(ins) and ins[i].get('k') in ('float', 'int', 'uint', 'bool')]
+        if row:
+            out.setdefault(cp, []).append(row)
+    return out
+
+
 def r9_replicated_setup(ctx, F, rule='C02-R9'):
     """The one-shot entry (`<mode>::difficulty::difficulty` with `DifficultyValues::calculate` inlined) and the gradual constructor both prepare the same calculation: they
     call the same constructors of the mode's difficulty module (skills, difficulty objects, catcher width ..).  Every NUMERIC argument (float / integer / bool
